@@ -22,7 +22,8 @@ EXPLANATION = (
     'node in declaration order (break right after the assignment) and mapping[None] otherwise; (A12) every '
     'mapping class implements resolve; (A4) the selected source option is read over DERIVES edges only; (A10d) no iteration over a mapping that may '
     'hold the None (inactive) entry dereferences its keys without excluding None (finding F16, repaired); (A6u) '
-    'existence of a source node is decided against all nodes of the source architecture.')
+    'existence of a source node is decided against all nodes of the source architecture.'
+    ' (A6) the option mapping keeps every originating node of the source choice (F26).')
 
 
 def resolve_shape(ctx, rule='A5'):
